@@ -616,6 +616,10 @@ func checkC18(p *core.Program, r *core.Report) {
 	// value and category are unchanged keeps the category name of the previous language (imported from C07/R5)
 	r.Rule("R5", "a saved result always replaces the stored one (imported from C07/R5): category_localized follows the language in force at the latest routing even when value and category did not change")
 	importObligations(p, r, "C07", map[string]bool{"R5": true}, "R5", "the result kept in the run carries the category name of an earlier language")
+	r.Rule("R7", "translated case arguments are taken when they are as many as the case's own arguments (imported from C07/R9): the count they are compared with is the count of the base arguments")
+	importObligations(p, r, "C07", map[string]bool{"R9": true}, "R7", "a valid translation of a case's arguments is thrown away (or a malformed one used)")
+	r.Rule("R8", "each item is looked up on its own: whether Run.GetText / GetTextArray is consulted for an item does not depend on the base-language value of that item (an item with an empty base value and a translation is still translated)")
+	c18R8(p, r)
 	r.Rule("R6", "the language preference list is computed from the session's current environment: session.MergedEnvironment is not a stale cache (imported from C19/R4)")
 	importObligations(p, r, "C19", map[string]bool{"R4": true}, "R6", "the allowed languages consulted for the contact's language are those of an environment that has since been replaced")
 }
@@ -866,4 +870,55 @@ func c18LocaleLanguage(c *ssa.Call) ssa.Value {
 		return c.Call.Args[0]
 	}
 	return nil
+}
+
+// c18R8: no call of Run.GetText / Run.GetTextArray is controlled by a condition computed from the base value it is
+// given (its last argument before the optional languages).
+func c18R8(p *core.Program, r *core.Report) {
+	n := 0
+	for _, fn := range p.ModuleFunctions() {
+		for _, cs := range core.Calls(fn, false) {
+			o := core.CalleeObj(cs.Common())
+			if o == nil || (core.ObjName(o) != "flows.Run.GetText" && core.ObjName(o) != "flows.Run.GetTextArray") {
+				continue
+			}
+			args := cs.Common().Args
+			if len(args) < 3 {
+				continue
+			}
+			base := args[2]
+			if _, isConst := base.(*ssa.Const); isConst {
+				continue
+			}
+			n++
+			// the base value is a field of the action / case / category: a test of that same field decides the lookup
+			bc := ""
+			if ld, ok := core.StripConv(base).(*ssa.UnOp); ok && ld.Op == token.MUL {
+				if fa, ok := ld.X.(*ssa.FieldAddr); ok {
+					bc = canon(fa)
+				}
+			}
+			bad := ""
+			if bc != "" {
+				for _, ce := range core.MayConds(cs.Instr.Block()) {
+					for w := range core.BackSlice(ce.Cond, nil) {
+						if fa, isFA := w.(*ssa.FieldAddr); isFA && canon(fa) == bc {
+							bad = bc
+						}
+					}
+				}
+			}
+			key := core.FuncName(fn) + "/" + o.Name() + "(" + constArgOr(args[1], "?") + ")"
+			r.Check(bad == "", "R8", key, p.Pos(cs.Pos()), "the lookup does not depend on the base value", "the translation of this item is looked up only when its base-language value passes a test ("+bad+"): an item that has a translation but an empty base value is not translated, while the other items of the same action are")
+		}
+	}
+	r.Count("translation_lookups_with_base_value", n)
+	r.Require("translation_lookups_with_base_value", n, 5)
+}
+
+func constArgOr(v ssa.Value, dflt string) string {
+	if s, ok := core.ConstString(v); ok {
+		return s
+	}
+	return dflt
 }
